@@ -303,6 +303,127 @@ func ruleSplit(c *Ctx) {
 		}
 		c.stat("persistent-effects", nState)
 
+		// ---- FRESH: a slice written through a pointer field into interpreter state (the fields of the record just
+		// scanned) is newly allocated for each record: it must not be built on the slice the pointer held before,
+		// because the interpreter may still hold that one as the current record's fields
+		allInstrs(fn, func(in ssa.Instruction) {
+			st, ok := in.(*ssa.Store)
+			if !ok {
+				return
+			}
+			f, base := loadedField(st.Addr)
+			if f == nil || !s.isRecvDerived(base) {
+				return
+			}
+			if _, isPtr := f.Type().(*types.Pointer); !isPtr {
+				return
+			}
+			if _, isSl := st.Val.Type().Underlying().(*types.Slice); !isSl {
+				return
+			}
+			reuse := false
+			seen := map[ssa.Value]bool{}
+			var walk func(v ssa.Value)
+			walk = func(v ssa.Value) {
+				if seen[v] {
+					return
+				}
+				seen[v] = true
+				switch x := v.(type) {
+				case *ssa.Phi:
+					for _, e := range x.Edges {
+						walk(e)
+					}
+				case *ssa.Slice:
+					walk(x.X)
+				case *ssa.Call:
+					if b, ok := x.Call.Value.(*ssa.Builtin); ok && b.Name() == "append" && len(x.Call.Args) > 0 {
+						walk(x.Call.Args[0])
+					}
+				case *ssa.UnOp:
+					if x.Op == token.MUL {
+						if f2, base2 := loadedField(x.X); f2 == f && s.isRecvDerived(base2) {
+							reuse = true
+						}
+					}
+				}
+			}
+			walk(st.Val)
+			c.check(!reuse, "fresh:"+name+":"+f.Name(), in.Pos(), "the slice handed to the interpreter through "+f.Name()+" is allocated for this record", name+" builds the slice it stores through "+f.Name()+" on the slice that was there before (reusing its backing array): the interpreter may still hold the previous slice as the current record's fields, which are then overwritten by the next record scanned (for example by getline var)")
+		})
+
+		// ---- BOM-COMMIT: a splitter that strips a byte order mark while a flag of its own is still false must set
+		// that flag on every path that consumes input (returns a non-zero advance): otherwise a later chunk that
+		// happens to start with the same three bytes loses them, so the records depend on how the bytes arrived
+		{
+			var flag *types.Var
+			for _, b := range fn.Blocks {
+				for _, in := range b.Instrs {
+					bo, ok := in.(*ssa.BinOp)
+					if !ok || bo.Op != token.EQL {
+						continue
+					}
+					k, ok := bo.Y.(*ssa.Const)
+					if !ok || k.Value == nil || k.Value.ExactString() != "239" {
+						continue
+					}
+					// a dominating test of a bool field of the receiver
+					for _, d := range fn.Blocks {
+						if len(d.Instrs) == 0 || !d.Dominates(b) {
+							continue
+						}
+						if iff, ok := d.Instrs[len(d.Instrs)-1].(*ssa.If); ok {
+							cond := iff.Cond
+							if u, ok := cond.(*ssa.UnOp); ok && u.Op == token.NOT {
+								cond = u.X
+							}
+							if f, recv := loadedField(cond); f != nil && recv == ssa.Value(s.recv) {
+								if bt, ok := f.Type().Underlying().(*types.Basic); ok && bt.Kind() == types.Bool {
+									flag = f
+								}
+							}
+						}
+					}
+				}
+			}
+			if flag != nil {
+				setBlocks := map[*ssa.BasicBlock]bool{}
+				allInstrs(fn, func(in ssa.Instruction) {
+					if st, ok := in.(*ssa.Store); ok {
+						if f, recv := fieldOfAddr(st.Addr); f == flag && recv == ssa.Value(s.recv) {
+							if k, ok := st.Val.(*ssa.Const); ok && k.Value != nil && k.Value.String() == "true" {
+								setBlocks[in.Block()] = true
+							}
+						}
+					}
+				})
+				// blocks reachable from the entry without passing a block that sets the flag
+				unset := map[*ssa.BasicBlock]bool{}
+				var walk func(b *ssa.BasicBlock)
+				walk = func(b *ssa.BasicBlock) {
+					if unset[b] || setBlocks[b] {
+						return
+					}
+					unset[b] = true
+					for _, su := range b.Succs {
+						walk(su)
+					}
+				}
+				walk(fn.Blocks[0])
+				nCons, bad := 0, token.NoPos
+				for _, r := range rets {
+					if k, ok := r.adv.(*ssa.Const); ok && k.Value != nil && k.Value.ExactString() == "0" {
+						continue
+					}
+					nCons++
+					if unset[r.ret.Block()] {
+						bad = r.ret.Pos()
+					}
+				}
+				c.check(bad == token.NoPos && nCons > 0, "bom-commit:"+name, bad, "every return that consumes input has set "+flag.Name()+" first", name+" can consume input (return a non-zero advance) without having set "+flag.Name()+": when the rest of the input arrives in a later read and starts with EF BB BF, those bytes are stripped from the middle of the data, so the records depend on how the bytes arrived")
+			}
+		}
+
 		// ---- EOF (must pass through the search)
 		search := s.containsSearch(fn, map[*ssa.Function]bool{})
 		for i, t := range tokens {
